@@ -110,7 +110,7 @@ fn case(rng: &mut Rng, pools: &mut Pools, rep: &mut Report, case_no: u64) {
             return;
         }
     };
-    let mut ad = b.build_async(full_world());
+    let mut ad = b.build_async(crate::res::full_world_with(plan.slots_used().into_iter()));
     ctx.set_mode(Mode::Run);
     ctx.arm(Arc::new(Jitter { seed: rng.next(), level: 0 }));
     let caller = tid();
@@ -390,6 +390,137 @@ fn case(rng: &mut Rng, pools: &mut Pools, rep: &mut Report, case_no: u64) {
     }
 }
 
+/// A long async history: running() is seen to go false once, then L-1 frames of dispatch + a
+/// blocking accessor, then one more dispatch in which a system is parked inside run while
+/// running() is polled. L sits at a counter-width boundary (dispatch numbers, frame counters and
+/// completion caches that wrap).
+fn case_soak(rng: &mut Rng, pools: &mut Pools, rep: &mut Report, case_no: u64) {
+    let mut c = cfg_for(Profile::Tiny, rng);
+    c.n = (2, 4);
+    c.tl = (0, 1);
+    c.p_static = 0;
+    let plan = gen_with(rng, &c);
+    let pool_size = rng.range(2, 4);
+    let pool = pools.get(pool_size);
+    let n_uids = plan.n_uids();
+    let per_uid = expected_counts(&plan, DMode::Par, n_uids);
+    let mut top_leafs: Vec<u32> = Vec::new();
+    let mut per = 0u64;
+    plan.walk(&mut |it, d| {
+        if let Item::Sys(s) = it {
+            per += per_uid[s.uid as usize] as u64;
+            if d == 0 {
+                top_leafs.push(s.uid);
+            }
+        }
+    });
+    if top_leafs.is_empty() {
+        return;
+    }
+    rep.evaluations += 1;
+    let ctx = Ctx::new(n_uids.max(1), 256);
+    let b = match std::panic::catch_unwind(std::panic::AssertUnwindSafe(|| instantiate(&plan, &ctx, Some(&pool)))) {
+        Ok(b) => b,
+        Err(_) => {
+            rep.inconclusive += 1;
+            return;
+        }
+    };
+    let mut ad = b.build_async(crate::res::full_world_with(plan.slots_used().into_iter()));
+    ctx.set_mode(Mode::Quiet);
+    let frames = *rng.pick(&[255usize, 256, 257, 65_535, 65_536, 65_536, 65_537]);
+    let mut dispatched = 0u64;
+    let mut problem: Option<(String, String)> = None;
+    // frame 0: running() is polled until it says false
+    ad.dispatch();
+    dispatched += 1;
+    let deadline = Instant::now() + Duration::from_secs(8);
+    let mut done = false;
+    while Instant::now() < deadline {
+        if !ad.running() {
+            done = true;
+            break;
+        }
+        std::thread::yield_now();
+    }
+    if !done {
+        problem = Some(("running_never_false".into(), "running() kept returning true for 8 s after the first dispatch of a long history".into()));
+    }
+    // frames 1 .. L-1: dispatch, then something that waits for it
+    if problem.is_none() {
+        for f in 1..frames {
+            ad.dispatch();
+            dispatched += 1;
+            match f % 3 {
+                0 => ad.wait(),
+                1 => ad.wait_without_tl(),
+                _ => {
+                    let _ = ad.world();
+                }
+            }
+            if f % 4096 == 0 || f + 1 == frames {
+                let (act, fin) = (ctx.active.load(SeqCst), ctx.finished.load(SeqCst));
+                if act != 0 || fin != dispatched * per {
+                    problem = Some(("unfinished_after_return".into(), format!("frame {} of a long history: a blocking accessor returned with {} completions ({} expected) and {} systems active", f, fin, dispatched * per, act)));
+                    break;
+                }
+            }
+        }
+    }
+    // frame L: a system is parked inside run; running() must say true however often it is asked
+    let mut polls = 0usize;
+    let mut inconclusive = false;
+    if problem.is_none() {
+        let target = *rng.pick(&top_leafs);
+        let latch = Arc::new(Latch { target, entered: AtomicBool::new(false), open: AtomicBool::new(false), timed_out: AtomicBool::new(false), cap: Duration::from_secs(8) });
+        ctx.set_mode(Mode::Run);
+        ctx.arm(latch.clone());
+        ad.dispatch();
+        dispatched += 1;
+        if !wait_until(Instant::now() + Duration::from_secs(8), || latch.entered.load(SeqCst)) {
+            inconclusive = true;
+        } else {
+            for _ in 0..rng.range(3, 30) {
+                polls += 1;
+                if !ad.running() {
+                    problem = Some((
+                        "running_false_while_held".into(),
+                        format!("running() returned false while u{} is parked inside run, in dispatch #{} of a history whose frame 0 ended with running() == false", target, dispatched),
+                    ));
+                    break;
+                }
+            }
+        }
+        latch.open.store(true, SeqCst);
+        ad.wait();
+        if latch.timed_out.load(SeqCst) {
+            inconclusive = true;
+        }
+        let (act, fin) = (ctx.active.load(SeqCst), ctx.finished.load(SeqCst));
+        if problem.is_none() && !inconclusive && (act != 0 || fin != dispatched * per) {
+            problem = Some(("unfinished_after_return".into(), format!("wait() at the end of a long history returned with {} completions ({} expected) and {} systems active", fin, dispatched * per, act)));
+        }
+    }
+    ctx.set_mode(Mode::Build);
+    ctx.disarm();
+    let _ = ctx.take_violations();
+    rep.metric("soak_histories", 1);
+    rep.metric("soak_frames", dispatched as i64);
+    if inconclusive {
+        rep.inconclusive += 1;
+        rep.notes.push(format!("case {}: a latch wait hit its watchdog at the end of a long history", case_no));
+        return;
+    }
+    match problem {
+        Some((k, m)) => rep.violation(&format!("{}:long_history", k), &m, case_no, J::obj().set("plan", plan.to_json()).set("pool", pool_size).set("frames", frames)),
+        None => {
+            if polls > 0 {
+                rep.nontrivial(mix(plan.hash(), 0x50a6 + frames as u64));
+            }
+        }
+    }
+}
+
 pub fn run(args: &Args) -> i32 {
     let mut rep = Report::new(args);
     let mut pools = Pools::new();
@@ -403,6 +534,10 @@ pub fn run(args: &Args) -> i32 {
             break;
         }
         let mut rng = Rng::new(args.case_seed(c));
+        if c % 200 == 7 {
+            guard_case(&mut rep, c, |rep| case_soak(&mut rng, &mut pools, rep, c));
+            continue;
+        }
         guard_case(&mut rep, c, |rep| case(&mut rng, &mut pools, rep, c));
     }
     rep.finish();
